@@ -229,7 +229,7 @@ def gen_view(rng):
     r = rng.random()
     tag = "plain"
     if r < 0.06:
-        i = rng.randrange(0, len(value))
+        i = rng.randrange(0, max(1, len(value)))
         value = value[:i] + rng.choice(EXOTIC) + value[i:]
         tag = "exotic"
     elif r < 0.10:
@@ -241,8 +241,11 @@ def gen_view(rng):
         pre, value, post = (x.replace("\n", "\r\n") for x in (pre, value, post))
         tag = "crlf"
     ops = gen_ops(rng, comma, oracle_split(comma, value))
-    return {"t": "view", "comma": comma, "pre": pre, "name": name, "value": value, "post": post, "ops": ops,
+    case = {"t": "view", "comma": comma, "pre": pre, "name": name, "value": value, "post": post, "ops": ops,
             "tag": tag}
+    if tag == "plain" and rng.random() < 0.08:
+        case["earlier"] = rng.randrange(10)
+    return case
 
 
 LEAF_ALPHA = ["a", ",", " ", "\t", "#", "\xa0"]
@@ -318,6 +321,9 @@ def _read(kv, comma):
         return {"err": err_kind(e)}
 
 
+EARLIER_VALUES = [" old1 old2\n", " a, b,\n c\n", " x\n", "\n one\n two\n", " p q r s\n"]
+
+
 def run_view(case):
     from debian._deb822_repro.parsing import parse_deb822_file
     comma = case["comma"]
@@ -340,6 +346,31 @@ def run_view(case):
     if not doc.startswith(pre + name + ":" + value):
         return {"skip": "token texts do not reproduce the document"}
     post = doc[len(pre) + len(name) + 1 + len(value):]
+    if case.get("earlier") is not None:
+        # EARLIER USE of the very same field object: the field first held another value, was read (and edited)
+        # through both list interpretations, and was then given the value under test through the public
+        # kvpair.value_element setter (what an undo/restore does).  Everything observed below must be as if the
+        # document had been parsed with the value under test.  (pre/post are the parsed ones, so that the two
+        # documents differ in the value element only.)
+        try:
+            ev = EARLIER_VALUES[case["earlier"] % len(EARLIER_VALUES)]
+            if not value.endswith("\n"):
+                ev = ev.rstrip("\n")
+            f0 = parse_deb822_file(lf_lines(pre + name + ":" + ev + post))
+            kv0 = _find_kvpair(f0, case["name"])
+            if kv0 is not None and kv0.value_element.convert_to_text() == ev:
+                for cm in (comma, not comma, comma):
+                    try:
+                        with kv0.interpret_as(_interp(cm)) as tl0:
+                            list(tl0)
+                            if case["earlier"] % 2:
+                                tl0.append("earlier-edit")
+                    except Exception:
+                        pass
+                kv0.value_element = kv.value_element
+                f, kv = f0, kv0
+        except Exception as e:
+            return {"skip": "earlier-use step failed: " + err_kind(e)}
     obs = {"pre": pre, "name": name, "value": value, "post": post, "ops": [], "close": None}
     try:
         view = kv.interpret_as(_interp(comma))
